@@ -38,6 +38,7 @@ class Lib(object):
                               "pipefile": "pipefile"}
         self.used = set()
         self.views = set()
+        self.view_arrays = {}        # id of a dict-view term -> (kind, map array, has array)
         self.slice_cache_key = "__slices__"
 
     def P(self, engine, st, name, *args):
@@ -393,6 +394,7 @@ class Lib(object):
             v = self.spec.uf["dict_view"](z3.IntVal(("keys", "values", "items").index(name)), engine.heap_get(st, d, "map").z,
                                           engine.heap_get(st, d, "has").z)
             self.views.add(v.get_id())
+            self.view_arrays[v.get_id()] = (name, engine.heap_get(st, d, "map").z, engine.heap_get(st, d, "has").z)
             yield st, SVal(v)
             return
         raise Unsupported("dict.%s (line %d)" % (name, node.lineno))
@@ -717,6 +719,25 @@ class Lib(object):
                 engine.type_invariants(st, [res])
             st.trace.append((kind, to_val(args[0]), to_val(args[1]), res.z if res is not None else None))
             yield st, res
+            return
+        if f is sorted and len(args) == 1 and isinstance(args[0], SVal) and set(kwargs) == {"key"} and isinstance(kwargs["key"], Closure) and \
+                args[0].z.get_id() in self.view_arrays and self.view_arrays[args[0].z.get_id()][0] == "items" and "member" in self.spec.recs:
+            # sorted(d.items(), key=<lambda>): a list (modelled as a tuple) that is the uninterpreted function sorted_by of the view
+            # and of the key function's source text; every element of it is an entry (k, d[k]) of the dict
+            import ast as _ast
+            keysrc = _ast.unparse(kwargs["key"].node.body) if hasattr(kwargs["key"].node, "body") else "?"
+            self.used.add("sorted(d.items(), key=lambda ...): an uninterpreted function of the items view and the key's source text; "
+                          "every element is an entry (k, d[k]) - that it is ORDERED by the key is the library's contract, not used")
+            _, m, h = self.view_arrays[args[0].z.get_id()]
+            T = self.spec.uf["sorted_by"](args[0].z, Val.VStr(seq_lit(keysrc)))
+            st.assume(Val.is_VTuple(T))
+            mem = self.spec.recs["member"].z
+            x = z3.Const("q!entry", Val)
+            l = Val.titems(x)
+            entry = z3.And(Val.is_VTuple(x), VL.is_cons(l), VL.is_cons(VL.tl(l)), VL.tl(VL.tl(l)) == VL.nil,
+                           z3.Select(h, VL.hd(l)), z3.Select(m, VL.hd(l)) == VL.hd(VL.tl(l)))
+            st.assume(z3.ForAll([x], z3.Implies(mem(x, Val.titems(T)), entry), patterns=[mem(x, Val.titems(T))]))
+            yield st, SVal(T)
             return
         if f in (reversed, sorted) and len(args) == 1 and isinstance(args[0], SVal) and not kwargs:
             # another iterable made from the value: an uninterpreted function of it (nothing is known about its order)
